@@ -1937,6 +1937,22 @@ _C3 = {
     'map': lambda r: r.choice(((TypeRef('Map', args=[TypeRef('String'), TypeRef('Int32')]), {'k': 'v'}),
                                (TypeRef('Map', args=[TypeRef('String'), TypeRef('Int32')]), {1: 2}))),
     'nullable': lambda r: r.choice(((TypeRef('Int32', nullable=True), 'x'), (TypeRef('String', nullable=True), 5))),
+    # a map KEY that is a string but breaks a constraint of the key type; first / later pair, inner map, map below `?`
+    'mapkey': lambda r: r.choice((
+        (TypeRef('Map', args=[TypeRef('String', kwargs={'max_length': 2}), TypeRef('Int32')]), {'abc': 1}),
+        (TypeRef('Map', args=[TypeRef('String', kwargs={'min_length': 2}), TypeRef('Int32')]), {'ab': 1, 'a': 2}),
+        (TypeRef('Map', args=[TypeRef('String', kwargs={'pattern': '[a-z]+'}), TypeRef('String')]), {'123': 'v'}),
+        (TypeRef('Map', args=[TypeRef('String', kwargs={'pattern': '[a-z]+', 'max_length': 8}), TypeRef('List', args=[TypeRef('Int32')])]),
+         {'etag': [1], 'ETag': [2]}),
+        (TypeRef('Map', args=[TypeRef('String'), TypeRef('Map', args=[TypeRef('String', kwargs={'max_length': 1}), TypeRef('Int32')])]),
+         {'k': {'a': 1}, 'j': {'ab': 1}}),
+        (TypeRef('Map', args=[TypeRef('String', kwargs={'min_length': 1}), TypeRef('Int32')], nullable=True), {'': 1}))),
+    'nested': lambda r: r.choice((
+        (TypeRef('List', args=[TypeRef('List', args=[TypeRef('Int32', kwargs={'max_value': 5})])]), [[1], [2, 6]]),
+        (TypeRef('Map', args=[TypeRef('String'), TypeRef('List', args=[TypeRef('String', kwargs={'max_length': 2})])]), {'k': ['ab', 'abc']}),
+        (TypeRef('Map', args=[TypeRef('String'), TypeRef('Map', args=[TypeRef('String'), TypeRef('Boolean')])]), {'k': {'j': 1}}),
+        (TypeRef('List', args=[TypeRef('Int32', nullable=True)]), [None, 'x']),
+        (TypeRef('Map', args=[TypeRef('String'), TypeRef('List', args=[TypeRef('Int32')], kwargs={'max_items': 1})]), {'k': [1, 2]}))),
 }
 
 
@@ -1978,9 +1994,205 @@ def _c7(model, s, rng):
     _ex_host(model, s, rng, [Field('a', t)], {'a': v})
 
 
+# ---- C3 at the sites of the model: one part of an example the generator wrote replaced by a value that does not fit ----
+
+_INT_BOUNDS = sg.INT_BOUNDS
+_NOMATCH = ('', ' ', '!', '0', 'A', 'a', '~~~', '@', 'zzzzzzzzzzzzzzzz')
+
+
+def _misfits(t):
+    """ways in which a value can fail to fit the primitive TypeRef t: [(aspect, value)]; every value is CERTAINLY
+    illegal for t (and stays so whatever else the type says)"""
+    n, kw = t.name, t.kwargs
+    out = []
+    if n in _INT_BOUNDS:
+        lo, hi = _INT_BOUNDS[n]
+        out.append(('kind', 'zq'))
+        out.append(('max', (kw['max_value'] if kw.get('max_value') is not None else hi) + 1))
+        out.append(('min', (kw['min_value'] if kw.get('min_value') is not None else lo) - 1))
+    elif n in ('Float32', 'Float64'):
+        out.append(('kind', 'zq'))
+        hi = kw.get('max_value') if kw.get('max_value') is not None else (sg.F32_MAX if n == 'Float32' else None)
+        lo = kw.get('min_value') if kw.get('min_value') is not None else (-sg.F32_MAX if n == 'Float32' else None)
+        if hi is not None:
+            out.append(('max', float(hi) + max(1.0, abs(float(hi)))))
+        if lo is not None:
+            out.append(('min', float(lo) - max(1.0, abs(float(lo)))))
+    elif n == 'Boolean':
+        out.append(('kind', 'zq'))
+    elif n == 'Bytes':
+        out.append(('kind', 7))
+    elif n == 'String':
+        out.append(('kind', 7))
+        if kw.get('max_length') is not None:
+            out.append(('max_length', 'z' * (kw['max_length'] + 1)))
+        if kw.get('min_length'):
+            out.append(('min_length', 'z' * (kw['min_length'] - 1)))
+        if kw.get('pattern'):
+            for c in _NOMATCH:
+                if re.match(kw['pattern'], c) is None:         # not even a prefix matches
+                    out.append(('pattern', c))
+                    break
+    elif n == 'Timestamp':
+        out.append(('format', 'zq-not-a-time'))
+    return out
+
+
+def _ex_sites_of_value(model, nsn, t, v, path, flags, out):
+    """collect (path, position, aspect, flags) below the example value v of (written) type t seen from namespace nsn;
+    path = steps ('i', n) list item, ('k', n) key of the n-th pair, ('v', n) value of the n-th pair"""
+    if t is None or v is None or isinstance(v, (ExampleRef, TagRef)):
+        return
+    nsn2, t2, _nul = _alias_chain_target(model, nsn, t)
+    if t2 is not t:
+        flags = flags | {'alias'}
+    if not _is_builtin(t2) or t2.name == 'Void':
+        return
+    pos = {'i': 'item', 'k': 'key', 'v': 'value'}[path[-1][0]] if path else 'field'
+    if t2.name == 'List':
+        if isinstance(v, list) and t2.args and isinstance(t2.args[0], TypeRef):
+            out.append((path, 'container', 'kind:list', flags))
+            if t2.kwargs.get('max_items') is not None and v:
+                out.append((path, 'container', 'max_items', flags))
+            if t2.kwargs.get('min_items'):
+                out.append((path, 'container', 'min_items', flags))
+            for i, x in enumerate(v):
+                _ex_sites_of_value(model, nsn2, t2.args[0], x, path + (('i', i),), flags, out)
+        return
+    if t2.name == 'Map':
+        if isinstance(v, dict) and len(t2.args) == 2 and all(isinstance(a, TypeRef) for a in t2.args):
+            out.append((path, 'container', 'kind:map', flags))
+            for i, (k, x) in enumerate(v.items()):
+                if _is_builtin(t2.args[0]) and isinstance(k, str):
+                    for aspect, _bad in _misfits(t2.args[0]):
+                        out.append((path + (('k', i),), 'key', aspect, flags))
+                _ex_sites_of_value(model, nsn2, t2.args[1], x, path + (('v', i),), flags, out)
+        return
+    if isinstance(v, (list, dict)):
+        return
+    for aspect, _bad in _misfits(t2):
+        out.append((path, pos, aspect, flags))
+
+
+def _ex_leaf_type(model, nsn, t, v, path):
+    """the (resolved) TypeRef at the end of `path`, and the value there"""
+    nsn, t, _nul = _alias_chain_target(model, nsn, t)
+    if not path:
+        return t, v
+    (step, i), rest = path[0], path[1:]
+    if step == 'i':
+        return _ex_leaf_type(model, nsn, t.args[0], v[i], rest)
+    k, x = list(v.items())[i]
+    if step == 'k':
+        return t.args[0], k
+    return _ex_leaf_type(model, nsn, t.args[1], x, rest)
+
+
+def _ex_replace(v, path, fn):
+    """v with the part at `path` replaced by fn(part)"""
+    if not path:
+        return fn(v)
+    (step, i), rest = path[0], path[1:]
+    if step == 'i':
+        return [(_ex_replace(x, rest, fn) if j == i else x) for j, x in enumerate(v)]
+    out = {}
+    for j, (k, x) in enumerate(v.items()):
+        if j != i:
+            out[k] = x
+        elif step == 'k':
+            out[fn(k)] = x
+        else:
+            out[k] = _ex_replace(x, rest, fn)
+    return out
+
+
+def _ex_owner(model, ns, d):
+    """the type whose members an example written in definition d talks about"""
+    if d.kind in ('struct_patch', 'union_patch'):
+        return sg.find_def(model, ns.name, d.name, ('struct', 'union'))
+    return d if d.kind in ('struct', 'union') else None
+
+
+def _example_sites(model, position):
+    out = []
+    for ni, ns in enumerate(model.namespaces):
+        if ns.name == 'stone_cfg':
+            continue
+        for di, d in enumerate(ns.defs):
+            exs = getattr(d, 'examples', None)
+            d0 = _ex_owner(model, ns, d) if exs else None
+            if d0 is None or (d0.kind == 'struct' and d0.subtypes):
+                continue
+            decl = {}
+            for owner_ns, owner, fl in sg.all_fields_decl(model, ns.name, d0):
+                decl.setdefault(fl.name, (owner_ns, owner, fl))
+            for ei, ex in enumerate(exs):
+                for fname, v in ex.fields.items():
+                    if fname not in decl:
+                        continue
+                    owner_ns, owner, fl = decl[fname]
+                    flags = frozenset((['inherited'] if owner is not d0 else []) + (['patch'] if d is not d0 else []) +
+                                      (['tag'] if d0.kind == 'union' else []))
+                    found = []
+                    _ex_sites_of_value(model, owner_ns, fl.type, v, (), flags, found)
+                    for path, pos, aspect, fl2 in found:
+                        if pos == position:
+                            ctx = '+'.join([aspect] + sorted(fl2) + (['deep'] if len(path) > 1 else []))
+                            out.append((ni, di, ei, fname, path, aspect, ctx))
+    return out
+
+
+def _example_apply(model, s, rng):
+    ni, di, ei, fname, path, aspect, _ctx = s
+    ns = model.namespaces[ni]
+    d = ns.defs[di]
+    d0 = _ex_owner(model, ns, d)
+    owner_ns, _owner, fl = [x for x in sg.all_fields_decl(model, ns.name, d0) if x[2].name == fname][0]
+    ex = d.examples[ei]
+    t, cur = _ex_leaf_type(model, owner_ns, fl.type, ex.fields[fname], path)
+    if aspect.startswith('kind:'):
+        new = lambda v: 5                                       # noqa: E731  a number where a list / a map is required
+    elif aspect == 'max_items':
+        new = lambda v: v + [v[0]] * (t.kwargs['max_items'] + 1 - len(v))   # noqa: E731
+    elif aspect == 'min_items':
+        new = lambda v: v[:t.kwargs['min_items'] - 1]           # noqa: E731
+    else:
+        bad = dict(_misfits(t))[aspect]
+        if path and path[-1][0] == 'k':
+            holder = ex.fields[fname]
+            for step, i in path[:-1]:
+                holder = holder[i] if step == 'i' else list(holder.values())[i]
+            while bad in holder:                                # a key that is already there would merge two pairs
+                if aspect == 'max_length':
+                    bad = bad + 'z'
+                elif aspect == 'kind':
+                    bad = bad + 1
+                else:
+                    raise ValueError('no distinct misfitting key')
+        new = lambda v: bad                                     # noqa: E731
+    ex.fields[fname] = _ex_replace(ex.fields[fname], path, new)
+
+
+def _site_rule(position, doc):
+    class _R:
+        def sites(model):
+            return _example_sites(model, position)
+
+        def apply(model, s, rng):
+            return _example_apply(model, s, rng)
+    RULES.append(Rule('C3.' + position, doc, 'model', _R.sites, _R.apply))
+
+
+_site_rule('field', 'the value an example gives to a member (own, inherited or patched in; possibly through aliases / `?`) must fit '
+           'the member\'s type: kind and every bound')
+_site_rule('item', 'every item of a list in an example must fit the item type (lists at any depth)')
+_site_rule('key', 'every KEY of a map in an example must fit the key type: a string inside the length bounds that matches the pattern')
+_site_rule('value', 'every value of a map in an example must fit the value type (maps at any depth)')
+_site_rule('container', 'where a list / map is required an example must give one, with a legal number of items')
+
 _ex_rule('C1', 'an example can only mention fields of the type', ('x',), _c1)
 _ex_rule('C2', 'an example must give every required field (lang_ref "Examples")', ('x',), _c2)
-_ex_rule('C3', 'an example value must be valid for the field type (kind, bounds, lists, maps, nullables)', tuple(_C3), _c3)
+_ex_rule('C3', 'an example value must be valid for the field type (kind, bounds, lists, maps and their keys, nullables, nesting)', tuple(_C3), _c3)
 _ex_rule('C4', 'a union example selects exactly one tag, with a value of its type (lang_ref "Union" examples)', ('two', 'badvalue'), _c4)
 _ex_rule('C5', 'a union example can only select a tag of the union', ('x',), _c5)
 _ex_rule('C6', 'an example of a struct with enumerated subtypes is a single reference to a subtype example by its type tag',
